@@ -95,7 +95,12 @@ def run(ck, only_sweeps=False, prop="C01"):
         if key in seen:
             continue
         seen.add(key)
-        out = pg.run_impl(nodes, data0, ctx0)
+        keep = {}
+        out = pg.run_impl(nodes, data0, ctx0, keep=keep, yaml_path=(attempts % 3 == 0))
+        if keep.get("via_yaml"):
+            stats["entry:yaml-text-through-loader"] = stats.get("entry:yaml-text-through-loader", 0) + 1
+        else:
+            stats["entry:dict"] = stats.get("entry:dict", 0) + 1
         if out[0] in ("rejected", "unsupported"):
             dropped[out[0]] += 1
             continue
